@@ -30,6 +30,7 @@ import (
 	"k8s.io/apimachinery/pkg/runtime"
 	"k8s.io/apimachinery/pkg/runtime/schema"
 	"k8s.io/apimachinery/pkg/types"
+	utiljson "k8s.io/apimachinery/pkg/util/json"
 	"sigs.k8s.io/controller-runtime/pkg/client"
 	"sigs.k8s.io/controller-runtime/pkg/client/apiutil"
 )
@@ -435,6 +436,17 @@ func (s *Store) Put(u *unstructured.Unstructured) *unstructured.Unstructured {
 	return s.commit(k, prev, next, &Request{}).DeepCopy()
 }
 
+// PutQuiet stores a fixture object without consuming uid / resourceVersion numbers
+// (for objects that exist in the harness only, e.g. the Namespace).
+func (s *Store) PutQuiet(u *unstructured.Unstructured) {
+	s.mu.Lock()
+	defer s.mu.Unlock()
+	next := u.DeepCopy()
+	next.SetUID("fixture")
+	next.SetResourceVersion("0")
+	s.objs[s.keyOf(u)] = next
+}
+
 // Remove deletes an object as the garbage collector / a third party would (honours finalizers).
 func (s *Store) Remove(k Key) {
 	s.mu.Lock()
@@ -735,7 +747,8 @@ func (c *Client) patch(obj client.Object, patch client.Patch, dryRun, force, sta
 				}
 			}
 			next := &unstructured.Unstructured{}
-			if err := json.Unmarshal(nextJSON, &next.Object); err != nil {
+			// apimachinery's Unmarshal keeps integral numbers as int64 (like the API machinery does)
+			if err := utiljson.Unmarshal(nextJSON, &next.Object); err != nil {
 				return nil, apierrors.NewBadRequest(err.Error())
 			}
 			// optimistic lock: a resourceVersion in the patch must match
